@@ -109,7 +109,47 @@ func c08Scope(m []KV) string {
 
 func init() { streams["C08"] = runC08 }
 
+// Fill(struct) then Assign of a name spelled like a Go field name or like its json tag: the later Assign
+// wins for that name everywhere it is read - Get, {{ }}, expressions, v-if, bound attributes - on the
+// template itself and on its New() / Load() children (direct oracle)
+type c08Doc struct {
+	Title string `json:"title"`
+	Count int    `json:"count"`
+	Plain string
+}
+
+func c08StructAssign(r *Run) {
+	fsys := fstest.MapFS{"p.vuego": &fstest.MapFile{Data: []byte(`<p :data-t="NAME + '!'" v-if="NAME == 'assigned'">{{ NAME }}|{{ NAME + '' }}</p><p v-else>WRONG {{ NAME }}</p>`)}}
+	for di, data := range []any{c08Doc{Title: "filled", Count: 1, Plain: "filled"}, &c08Doc{Title: "filled", Count: 1, Plain: "filled"}, map[string]any{"Title": "filled", "title": "filled", "Plain": "filled"}} {
+		for _, name := range []string{"Title", "title", "Plain"} {
+			base := vuego.NewFS(fsys).Fill(data).Assign(name, "assigned")
+			want := `<pdata-t="assigned!">assigned|assigned</p>`
+			src := strings.ReplaceAll(string(fsys["p.vuego"].Data), "NAME", name)
+			check := func(what string, got string, err error) {
+				r.Eval(fmt.Sprintf("struct-assign:%d:%s:%s", di, name, what), true, nil)
+				r.Count("stream:struct-assign(oracle only)")
+				if err != nil || strings.Join(strings.Fields(got), "") != want {
+					r.Fail("a value assigned after Fill(struct) does not win for its name", map[string]string{"oracle": "struct-assign", "name": name, "via": what},
+						map[string]any{"data": fmt.Sprintf("%T", data), "name": name, "via": what, "output": got, "expected": want, "err": fmt.Sprint(err)})
+				}
+			}
+			var b1, b2, b3 bytes.Buffer
+			e1 := base.RenderString(context.Background(), &b1, src)
+			check("RenderString", b1.String(), e1)
+			e2 := base.New().RenderString(context.Background(), &b2, src)
+			check("New.RenderString", b2.String(), e2)
+			m := fstest.MapFS{"p.vuego": &fstest.MapFile{Data: []byte(src)}}
+			e3 := vuego.NewFS(m).Fill(data).Assign(name, "assigned").Load("p.vuego").Render(context.Background(), &b3)
+			check("Load.Render", b3.String(), e3)
+			if g := base.New().Get(name); g != "assigned" {
+				check("New.Get", "<p>"+g+"</p>", nil)
+			}
+		}
+	}
+}
+
 func runC08(r *Run) {
+	c08StructAssign(r)
 	r.Imports = []string{"Base.Val", "Model.Stack", "Model.Sources"}
 	r.Rule("engines with every presence pattern of a key in theme.yml, data/1.yml, data/2.yml (directory order), the page's front-matter, Fill and Assign; Fill data as map, struct (json tags and an untagged field) and pointer to struct; " +
 		"histories up to length 9 of New / Load / Fill / Assign / Get / Render / RenderString on a growing template tree; after every render each key is read through {{ }}, a bound attribute and v-if, " +
@@ -118,7 +158,7 @@ func runC08(r *Run) {
 	rr := r.Rng
 	n := 1500
 	if r.Thorough() {
-		n = 12000
+		n = 40000
 	}
 	valOf := func(tag, k string) Val {
 		switch rr.Intn(5) {
